@@ -152,8 +152,8 @@ class HTTP(BaseComponent):
         res.prepare()
         self.fire(write(sock, b'%s%s' % (bytes(res), bytes(headers))))
 
-        if req.method == 'HEAD':
-            # the response to HEAD ends with the header block: finish it
+        if req.method == 'HEAD' or res.status < 200 or res.status in (204, 304):
+            # these responses end with the header block: finish it
             # like any other complete response
             if res.close:
                 self.fire(close(sock))
